@@ -320,12 +320,11 @@ func genForced(rng *rand.Rand, which string) *Scn {
 		m.Items = []Item{{Kind: "w", Delay: 0}, {Kind: "t", Delay: 0}, {Kind: "mm", Delay: 0}}
 		s.Holds = []Hold{{Point: "ctrlSet", Mod: 0, Nth: 1, UntilPoint: "cCtrl", UntilMod: 0, UntilCount: 3, MaxMs: 400, AfterPoint: "sFlag", AfterCount: 1}}
 	case "two-finishers-race-cas":
-		// the stop routine returns at once (its check fails on the worker count); then both workers decrement
-		// before either checks, and both pass all reads before either tries the CAS
+		// the stop routine returns at once; every check then waits at its fast path until both workers have
+		// decremented: three goroutines pass the fast path, one wins the CAS, the others find the stop completed
 		m.Items = []Item{{Kind: "w", Delay: 10}, {Kind: "w", Delay: 10}}
 		s.Holds = []Hold{
-			{Point: "cFlag", Mod: 0, Nth: 0, UntilPoint: "dec", UntilMod: 0, UntilCount: 2, MaxMs: 400, AfterPoint: "sFlag", AfterCount: 1},
-			{Point: "cCas", Mod: 0, Nth: 1, UntilPoint: "cM", UntilMod: 0, UntilCount: 2, MaxMs: 400, AfterPoint: "sFlag", AfterCount: 1},
+			{Point: "cFast", Mod: 0, Nth: 0, UntilPoint: "dec", UntilMod: 0, UntilCount: 2, MaxMs: 400, AfterPoint: "sFlag", AfterCount: 1},
 		}
 	case "new-work-during-stop":
 		// a worker started after the flag was set while an old one is still running
@@ -344,31 +343,35 @@ func genForced(rng *rand.Rand, which string) *Scn {
 	return s
 }
 
-// the two straggler races found by the model (DESIGN.md §7 item 30 and the late start-goroutine UnSet)
+// regression scenarios for the two straggler races of the pinned tree (DESIGN.md §7 item 30 and the late
+// start-goroutine UnSet), both repaired by fix: commits. The same forced schedules that produced a premature
+// Offline before the repair must now satisfy the property (the parked goroutine simply delays the stop).
 func genFinding(rng *rand.Rand, which string) *Scn {
 	s := &Scn{StopTimeout: 6000, Seed: rng.Int63(), Mgmt: true, NoNotify: true}
 	switch which {
 	case "stale-checker":
-		// cycle 1: two workers; both decrement before either checks; the first to arrive at the CAS is parked
-		// until the second cycle's cancel. cycle 2: one worker that needs 300 ms to return.
+		// cycle 1: two workers; every check waits until both have decremented; the first to arrive at the CAS is
+		// parked (until the second cycle's cancel, which with the repair cannot happen before it moves on, so the
+		// hold runs into its limit). cycle 2: one worker that needs 300 ms to return.
 		m := Mod{Deps: []int{}, StopFn: "ok", Enabled: true, Items: []Item{
 			{Kind: "w", Delay: 5}, {Kind: "w", Delay: 5}, {Kind: "w", Delay: 300, Cycle: 1}}}
 		keep := Mod{Deps: []int{}, Enabled: true}
 		s.Mods = []Mod{m, keep}
 		s.Holds = []Hold{
-			{Point: "cFlag", Mod: 0, Nth: 0, UntilPoint: "dec", UntilMod: 0, UntilCount: 2, MaxMs: 1000, AfterPoint: "sFlag", AfterCount: 1},
-			{Point: "cCas", Mod: 0, Nth: 1, UntilPoint: "sCancel", UntilMod: 0, UntilCount: 2, MaxMs: 3000, AfterPoint: "sFlag", AfterCount: 1},
+			{Point: "cFast", Mod: 0, Nth: 0, UntilPoint: "dec", UntilMod: 0, UntilCount: 2, MaxMs: 500, AfterPoint: "sFlag", AfterCount: 1},
+			{Point: "cCas", Mod: 0, Nth: 1, UntilPoint: "sCancel", UntilMod: 0, UntilCount: 2, MaxMs: 300, AfterPoint: "sFlag", AfterCount: 1},
 		}
 		s.Script = []string{"start", "work 0", "disable 0", "manage", "enable 0", "manage", "work 1", "disable 0", "manage", "shutdown"}
 	case "late-start-unset":
-		// the start routine's goroutine is parked before its deferred UnSet until the stopper has set the stop flag;
-		// the stopper is parked before the cancel until that goroutine's check has read the control flag.
+		// the start routine's goroutine is parked before its deferred UnSet (until the stopper has set the stop flag,
+		// which with the repair cannot happen before the start completed); the stopper is parked before the cancel
+		// until a check has read the control flag.
 		m := Mod{Deps: []int{}, StartFn: "ok", StopFn: "ok", StopDelay: 250}
 		s.Mgmt = false
 		s.Mods = []Mod{m}
 		s.Holds = []Hold{
-			{Point: "ctrlUnset", Mod: 0, Nth: 1, UntilPoint: "sFlag", UntilMod: 0, UntilCount: 1, MaxMs: 3000},
-			{Point: "sCancel", Mod: 0, Nth: 1, UntilPoint: "cM", UntilMod: 0, UntilCount: 1, MaxMs: 1000},
+			{Point: "ctrlUnset", Mod: 0, Nth: 1, UntilPoint: "sFlag", UntilMod: 0, UntilCount: 1, MaxMs: 300},
+			{Point: "sCancel", Mod: 0, Nth: 1, UntilPoint: "cM", UntilMod: 0, UntilCount: 1, MaxMs: 200},
 		}
 		s.Script = []string{"start", "work 0", "shutdown"}
 	}
@@ -390,7 +393,7 @@ func gen(r *hxlib.Run, emit func(hxlib.Case)) {
 	// regression / forced cases first
 	for _, k := range []string{"stale-checker", "late-start-unset"} {
 		for i := 0; i < r.Budget(2, 6); i++ {
-			add("finding:"+k, genFinding(r.Rng, k))
+			add("regression:"+k, genFinding(r.Rng, k))
 		}
 	}
 	for _, k := range forcedKinds {
